@@ -34,7 +34,31 @@ def refinement(*conditions: ConditionType) -> SymbolicExpression[T]:
     new_conditions_root = ExceptIf(SymbolicExpression._current_parent_(), new_branch)
     new_branch._node_.weight = RDREdge.Refinement
     new_conditions_root._parent_ = prev_parent
+    _replace_operand(prev_parent, current_node, new_conditions_root)
     return new_conditions_root.right
+
+
+def _replace_operand(
+    parent: SymbolicExpression,
+    old_operand: SymbolicExpression,
+    new_operand: SymbolicExpression,
+) -> None:
+    """
+    Make a binary operator evaluate `new_operand` where it evaluated `old_operand`.
+
+    The `_parent_` setter re-parents a node in the expression graph and updates `_child_`, but a binary operator is
+    evaluated through its `left`/`right` attributes, so the operand that was wrapped has to be replaced there too.
+
+    :param parent: The node that had `old_operand` as a child (nothing to do unless it is a binary operator).
+    :param old_operand: The node that got wrapped.
+    :param new_operand: The node that wraps it.
+    """
+    if not isinstance(parent, BinaryOperator):
+        return
+    if parent.left is old_operand:
+        parent.left = new_operand
+    elif parent.right is old_operand:
+        parent.right = new_operand
 
 
 def alternative(*conditions: ConditionType) -> SymbolicExpression[T]:
